@@ -573,6 +573,72 @@ def mode_bits(item):
     return part
 
 
+def refused_first(item):
+    """a listing that is refused (not logged in yet / login dropped by a re-USER) does not change what later listings
+    on the same client report: exact UTC seconds through MLSD, as before"""
+    how, = item
+    part = report.Partial()
+    mt = EPOCH - 59          # 14:36:01 - the ls format would carry 14:36
+    rig = Rig(tree={"dir": {"f": b"12345", "sub": {}}}, epoch0=EPOCH, mtime=mt,
+              users=lambda a, base: [a.User(base_path=base), a.User("bob", "pw", base_path=base)])
+    w = rig.world
+    a = w.aioftp
+    problems = []
+    out = {}
+
+    async def main():
+        c = a.Client(path_io_factory=a.MemoryPathIO)
+        await c.connect("127.0.0.1", 2121)
+        if how == "relogin-pending":
+            await c.login()
+            await c.command("USER bob", "331")
+        for attempt in range(2):
+            try:
+                await c.list("/dir")
+                out["refused"] = False
+            except a.StatusCodeError:
+                out["refused"] = True
+        if how == "relogin-pending":
+            await c.command("PASS pw", "230")
+        else:
+            await c.login()
+        out["list"] = [(str(p_), dict(i)) for p_, i in await c.list("/dir")]
+        out["recursive"] = [(str(p_), dict(i)) for p_, i in await c.list("/", recursive=True)]
+        out["stat"] = dict(await c.stat("/dir/f"))
+        await c.quit()
+
+    try:
+        try:
+            w.run(main())
+        except Hang:
+            problems.append({"kind": "hang", "via": "?"})
+        except Exception as exc:
+            problems.append({"kind": "exception", "via": "?", "exc": repr(exc)[:300]})
+        want = time.strftime("%Y%m%d%H%M%S", time.gmtime(mt))
+        if not problems:
+            if not out.get("refused"):
+                problems.append({"kind": "names", "via": "refused-listing-was-served", "got": out})
+            for via in ("list", "recursive"):
+                for p_, info in out.get(via, []):
+                    if info.get("modify") != want:
+                        problems.append({"kind": "modify", "via": via + "-after-a-refused-listing", "name": p_,
+                                         "got": info.get("modify"), "want": want})
+            if out.get("stat", {}).get("modify") != want:
+                problems.append({"kind": "modify", "via": "stat-after-a-refused-listing", "got": out.get("stat", {}).get("modify"),
+                                 "want": want})
+        part.evaluations += 1
+        part.traces += 1
+        part.transitions += w.net.n_events
+        k = report.fp(["refused-first", how])
+        part.states.add(k)
+        part.nontrivial.add(k)
+        for p in problems[:1]:
+            part.violation({"kind": p["kind"], "via": p["via"], "refused_first": how}, {"problem": p}, replay={"refused": [how]})
+    finally:
+        rig.close()
+    return part
+
+
 def faulty_listing(item):
     """one backend call of the listing fails: the client must learn that the listing failed - a listing that is
     reported complete has every entry exactly once"""
@@ -663,6 +729,7 @@ def run(tier, seed, t0):
                                               for act, victims in (("delete", ("a", "c", "e")), ("create", ("0", "cc", "z")))
                                               for victim in victims for k in range(1, 40 if tier == "quick" else 80, 2 if tier == "quick" else 1)]) \
         + report.pmap(dash_names, [(b, f) for b in ("memory", "pathio") for f in (False, True)]) \
+        + report.pmap(refused_first, [("before-login",), ("relogin-pending",)]) \
         + report.pmap(mode_bits, [(b, k) for b in ("pathio", "async") for k in ("file", "dir")]) \
         + report.pmap(cross_session, [(b, h) for b in ("memory", "pathio", "async")
                                       for h in ("delete-upload", "rename-into-place", "overwrite")])
@@ -674,6 +741,7 @@ def run(tier, seed, t0):
               "listing_during_change": "5 entries, lock-step data connection; another session deletes / creates a sibling after "
                                        "every network event of the listing; LIST and MLSD, 3 backends",
               "dash_names": "entries named -old, -1, -la, -x listed / stat'ed by their bare relative name (MLSD, LIST, LIST-only server)",
+              "refused_first": "a listing refused before login / while a re-login is pending, then listings and stat on the same client",
               "mode_bits": "files and directories of a real directory with modes %s (MLSD, LIST, stat on a LIST-only server)" % [oct(m) for m in MODES],
               "cross_session": "a second session replaces a file (3 ways) and a directory between two looks of the first; 3 backends",
               "aged_listing": "LIST verb, data connection 10 s .. 1 h later, an entry created in between (both zones)",
@@ -698,6 +766,8 @@ def replay(path):
         part = faulty_listing(tuple(rp["faulty"]))
     elif "dash" in rp:
         part = dash_names(tuple(rp["dash"]))
+    elif "refused" in rp:
+        part = refused_first(tuple(rp["refused"]))
     elif "modes" in rp:
         part = mode_bits(tuple(rp["modes"]))
     elif "during" in rp:
